@@ -1395,9 +1395,11 @@ def classify(f, trig, unit_tags, edge_stream):
             for tp, t1, t2 in d:
                 if near(t1, t2) and any(c in unit_tags for c in tp):
                     k = 'unit-vector-renormalised-on-reassignment'
-                elif edge_stream and t1.strip() == '' and t2 == 'None':
+                elif t1.strip() == '' and t2 == 'None':
                     k = 'xml-empty-string-in-collection-becomes-None'
-                elif edge_stream and stripped_equal(t1, t2):
+                elif stripped_equal(t1, t2):
+                    # (whichever stream drew the value: two serialisations that differ only in the edge whitespace of a text node ARE the
+                    # listed finding - the trigger is the string value, not the stream it came from)
                     k = 'xml-string-edge-whitespace-stripped'
                 else:
                     keys = None
